@@ -213,6 +213,11 @@ def stepsOf (env : Env) : Bool → Builder.Path → BRes (List Step)
         if !first && it.identifier ≠ "" then .unsup "named indexed item after the first"
         else (indexKey env ix).bind fun k => (stepsOf env false rest).map fun r => name ++ [.key k] ++ r
 
+/-- the l-value `builder.internal.<path>`; an empty path prints `builder.internal. = …`, which
+    does not compile -/
+def lvalue (env : Env) (p : Builder.Path) : BRes (List Step) :=
+  (stepsOf env true p).bind fun steps => if steps.isEmpty then .unsup "empty path" else .ok steps
+
 /-- `ast.Path.String()` -/
 def pathString (p : Builder.Path) : String := ".".intercalate (p.map (·.identifier))
 
@@ -258,10 +263,41 @@ def coerceConst (t : Ty) (v : GoVal) : GoVal :=
   | .scalar k _ _ _, .int n => if k == "float32" || k == "float64" then .float (n * 4) else v
   | _, _ => v
 
+/-- `New<Object>()` and `T{}` leave a union-struct member without any branch; such a member marshals as
+    `null`, which the decoder of a scalars union reads as its first branch.  Undo that: members
+    whose JSON is null/absent and whose type is a (non-nullable) reference to a union struct hold
+    the empty union. -/
+def fixDefault : Nat → Schemas → Ty → Json → GoVal → GoVal
+  | 0, _, _, _, v => v
+  | fuel + 1, ss, t, j, v =>
+    match t with
+    | .ref p n m =>
+      match Schemas.locateObject ss p n with
+      | some { ty := .struct fields _ gi _, .. } =>
+        match gi, j with
+        | some _, .null => if m.nullable then v else .union (fields.map fun f => (f.name, .nil))
+        | some _, _ => v
+        | none, .obj members =>
+          let fixFields (fs : List (String × Bool × GoVal)) : List (String × Bool × GoVal) :=
+            fs.map fun (k, om, x) =>
+              match fields.find? (fun f => f.name == k) with
+              | some f => (k, om, fixDefault fuel ss f.ty ((Json.lookup k members).getD .null) x)
+              | none => (k, om, x)
+          match v with
+          | .struct fs => .struct (fixFields fs)
+          | .ptr (.struct fs) => .ptr (.struct (fixFields fs))
+          | _ => v
+        | _, _ => v
+      | _ => v
+    | _ => v
+
 /-- the zero value of a named struct (`T{}`): every member decoded from `null` -/
 def zeroStruct (c : Ctx) (t : Ty) : BRes GoVal :=
   match t with
-  | .ref p n _ => BRes.ofD (goDecode 8 c.ss (.ref p n {}) .null)
+  | .ref p n _ =>
+    match Schemas.locateObject c.ss p n with
+    | some { ty := .struct fields _ (some _) _, .. } => .ok (.union (fields.map fun f => (f.name, .nil)))
+    | _ => (BRes.ofD (goDecode 8 c.ss (.ref p n {}) .null)).map (fixDefault 8 c.ss (.ref p n {}) (.obj []))
   | _ => .unsup "envelope type is not a reference"
 
 /-- `emptyValueForGuard` -/
@@ -288,7 +324,7 @@ def emptyValue (c : Ctx) (t : Ty) : BRes GoVal :=
 
 /-- `nil_check`: `if <path> == nil { <path> = <empty value> }` -/
 def nilCheck (c : Ctx) (env : Env) (nc : NilCheck) (v : GoVal) : BRes GoVal :=
-  (stepsOf env true nc.path).bind fun steps =>
+  (lvalue env nc.path).bind fun steps =>
   (get steps v).bind fun cur =>
     if cur.isNil then (emptyValue c nc.emptyValueType).bind fun e => upd steps (fun _ => .ok e) v
     else .ok v
@@ -326,24 +362,24 @@ def leafValue (env : Env) (lastTy : Ty) : AValue → VRes
 /-- `value_envelope`: `T{ Field: <value>, … }`; each member value is printed by `assignment_value`
     (pointer decision of the OUTER assignment) and then `maybeAsPointer` of the member's own type:
     both at once is `&&x`, which does not compile -/
+def envelopeMember (env : Env) (lastTy : Ty) (it : PathItem) : AValue → VRes
+  | .arg cell =>
+    if asPointer lastTy && asPointer it.ty then .unsup "double address-of in envelope" else
+    match leafValue env lastTy (.arg cell) with
+    | .val v => .val (if asPointer lastTy then v else maybePtr it.ty v)
+    | r => r
+  | .const k =>
+    match leafValue env lastTy (.const k) with
+    | .val v => .val (maybePtr it.ty v)
+    | r => r
+  | _ => .unsup "envelope member value"
+
 def envelopeFields (env : Env) (lastTy : Ty) : List EnvField → GoVal → VRes
   | [], acc => .val acc
   | ev :: rest, acc =>
     match ev.path with
     | [it] =>
-      let inner : VRes :=
-        match ev.value with
-        | .arg cell =>
-          if asPointer lastTy && asPointer it.ty then .unsup "double address-of in envelope" else
-          match leafValue env lastTy (.arg cell) with
-          | .val v => .val (if asPointer lastTy then v else maybePtr it.ty v)
-          | r => r
-        | .const k =>
-          match leafValue env lastTy (.const k) with
-          | .val v => .val (maybePtr it.ty v)
-          | r => r
-        | _ => .unsup "envelope member value"
-      match inner with
+      match envelopeMember env lastTy it ev.value with
       | .val v =>
         match upd [.fld it.identifier] (fun _ => .ok v) acc with
         | .ok acc' => envelopeFields env lastTy rest acc'
@@ -399,7 +435,7 @@ def applyAssignment (c : Ctx) (env : Env) (st : BState) (a : Assignment) : AStep
     | .unsup w => .unsup w
     | .stop => .stop { internal := v1, errors := addKey (pathString a.path) st.errors }
     | .val x =>
-      match (stepsOf env true a.path).bind fun steps => upd steps (assignOp a.method x) v1 with
+      match (lvalue env a.path).bind fun steps => upd steps (assignOp a.method x) v1 with
       | .ok v2 => .cont { st with internal := v2 }
       | .panic w => .panic w
       | .unsup w => .unsup w
@@ -440,6 +476,11 @@ def build (c : Ctx) (b : Builder) (st : BState) : BRes (Except (List Viol) GoVal
   | .err => .unsup "validate"
   | .unsup w => .unsup w
   | .fuel => .fuel
+
+/-- a sequence of option calls on resolved arguments -/
+def applyCalls (c : Ctx) : List (Opt × List RArg) → BState → BRes BState
+  | [], st => .ok st
+  | (o, args) :: rest, st => (applyOption c o args st).bind (applyCalls c rest)
 
 /-! ### call lists (nested builders as data) -/
 
